@@ -457,6 +457,11 @@ func init() {
 					}
 				}
 			}
+			// path primitives with hostile path elements, inside and outside path expressions (bounded-exhaustive): every path of up to
+			// two elements from a pool of well- and ill-typed elements, and every ordered pair of such paths for the multi-path forms
+			for _, t := range c08PathHostile() {
+				kC08Lib.Do(c, t)
+			}
 			qs := gen.AllCorpusQueries()
 			names := builtinNames()
 			for _, q := range qs {
@@ -513,4 +518,56 @@ func init() {
 			}
 		},
 	})
+}
+
+var c08PathElems = []string{"null", "true", "0", "1", "-1", "1.5", `"a"`, `"x"`, `{"start":0,"end":1}`, `{"start":null}`, "[]", "[0]", "{}"}
+var c08PathElemsFew = []string{"null", "true", "0", "1", `"a"`, `"x"`, `{"start":0}`}
+var c08PathInputs = []any{nil, map[string]any{"a": map[string]any{"x": 1}}, []any{[]any{1, 2}}, map[string]any{"a": nil}, map[string]any{"a": []any{map[string]any{"x": 1}, 2}}, map[string]any{"a": "abc", "x": []any{nil}}}
+var c08PathSingles = []string{"getpath(%p)", "path(getpath(%p))", "[paths(getpath(%p))]", "getpath(%p) = 1", "getpath(%p) |= 3", "getpath(%p) |= empty", "del(getpath(%p))", "try (getpath(%p) |= 3) catch .", "try del(getpath(%p)) catch .",
+	"setpath(%p; 1)", "try setpath(%p; 1) catch .", "delpaths([%p])", "pick(getpath(%p))", "try pick(getpath(%p)) catch .", "[getpath(%p)?]", "getpath(%p)? // 1", "path(getpath(%p) | getpath(%p))", "to_entries? | getpath(%p)", "first(path(getpath(%p)))?",
+	"getpath(%p) += 1", "[limit(1; path(getpath(%p)))]", "path(.. | getpath(%p)?)", "[paths] | map(. + %p) | .[0:3]", "path(getpath(%p)?) , path(.a)", "reduce path(getpath(%p)?) as $q (.; setpath($q; 0))"}
+var c08PathPairs = []string{"delpaths([%p, %q])", "try delpaths([%p, %q]) catch .", "del(getpath(%p), getpath(%q))", "try del(getpath(%p), getpath(%q)) catch .", "[getpath(%p, %q)?]", "try (getpath(%p, %q) |= empty) catch .",
+	"path(getpath(%p) | getpath(%q))", "try (getpath(%p) = 1 | getpath(%q) = 2) catch .", "setpath(%p; 1) | try delpaths([%q, %p]) catch .", "try ((getpath(%p), getpath(%q)) = 1) catch ."}
+
+func c08PathLists(elems []string) []string {
+	out := []string{"[]"}
+	for _, a := range elems {
+		out = append(out, "["+a+"]")
+	}
+	for _, a := range elems {
+		for _, b := range elems {
+			out = append(out, "["+a+","+b+"]")
+		}
+	}
+	return out
+}
+
+func c08PathHostile() []c08Lib {
+	var out []c08Lib
+	add := func(src string, in any) {
+		out = append(out, c08Lib{SrcHex: hex.EncodeToString([]byte(src)), Input: run.TV{V: in}, Var: run.TV{V: in}})
+	}
+	for _, p := range c08PathLists(c08PathElems) {
+		for _, w := range c08PathSingles {
+			src := strings.ReplaceAll(w, "%p", p)
+			for _, in := range c08PathInputs {
+				add(src, in)
+			}
+		}
+	}
+	few := c08PathLists(c08PathElemsFew)
+	for _, p := range few {
+		for _, q := range few {
+			for wi, w := range c08PathPairs {
+				src := strings.ReplaceAll(strings.ReplaceAll(w, "%p", p), "%q", q)
+				for ii, in := range c08PathInputs {
+					if wi >= 2 && (ii+wi)%2 == 0 {
+						continue // the forms after the two delpaths forms alternate over the inputs
+					}
+					add(src, in)
+				}
+			}
+		}
+	}
+	return out
 }
